@@ -43,7 +43,10 @@ def _one(job):
         return (variant["name"], "error", [str(exc)])
     except Exception as exc:  # noqa
         return (variant["name"], "error", [repr(exc)])
-    return (variant["name"], "ran", sorted({o.rule + " " + o.func + " :: " + o.construct for o in ck.obls if not o.ok}))
+    fails = sorted({o.rule + " " + o.func + " :: " + o.construct for o in ck.obls if not o.ok})
+    if not fails and ck.floor_failures:
+        return (variant["name"], "error", list(ck.floor_failures))
+    return (variant["name"], "ran", fails)
 
 
 def run_variants(root, mod, pid, baseline_fail_keys=()):
